@@ -92,6 +92,12 @@ pub struct TraceEntry {
     pub bytes_in: usize,
 }
 
+impl TraceEntry {
+    pub fn is_write(&self) -> bool {
+        matches!(self.request, "sync" | "patch" | "update" | "create")
+    }
+}
+
 #[derive(Clone, Default)]
 pub struct Tap {
     pub trace: Arc<StdMutex<Vec<TraceEntry>>>,
@@ -544,6 +550,101 @@ impl SyncWorld {
             None => Ok(None),
             Some(st) => Ok(Some(st.sync_status().await.map_err(hf("harness/server-status", "server sync_status"))?)),
         }
+    }
+}
+
+/// A quiescent snapshot of a whole sync world (device dirs + server dir) from
+/// which identical worlds can be re-created (stateless schedule exploration).
+pub struct Template {
+    pub cfg: AcctCfg,
+    pub server_db: bool,
+    pub account_id: AccountId,
+    pub password: SecretString,
+    pub device_dirs: Vec<tempfile::TempDir>,
+    pub clocks: Vec<(i128, i128)>,
+    pub server_dir: tempfile::TempDir,
+    pub server_has_account: bool,
+}
+
+async fn server_target(dir: &std::path::Path, db: bool) -> Result<BackendTarget, Failure> {
+    let paths = Paths::new_server(dir);
+    Ok(if db {
+        let db_file = paths.database_file().clone();
+        if let Some(p) = db_file.parent() {
+            std::fs::create_dir_all(p).ok();
+        }
+        let mut client = sos_database::open_file(&db_file).await.map_err(hf("harness/db-open", "open server db"))?;
+        sos_database::migrations::migrate_client(&mut client).await.map_err(hf("harness/db-migrate", "migrate server db"))?;
+        BackendTarget::Database(paths, client)
+    } else {
+        Paths::scaffold(paths.documents_dir()).await.map_err(hf("harness/scaffold", "scaffold server"))?;
+        BackendTarget::FileSystem(paths)
+    })
+}
+
+impl SyncWorld {
+    /// Sign everything out and keep only the directories.
+    pub async fn into_template(self) -> Result<Template, Failure> {
+        let mut device_dirs = vec![];
+        let mut clocks = vec![];
+        for d in self.devices {
+            {
+                let mut a = d.account.lock().await;
+                a.sign_out().await.map_err(hf("harness/sign-out", "sign_out for template"))?;
+            }
+            clocks.push(d.clock);
+            drop(d.bridge);
+            drop(d.account);
+            device_dirs.push(d.temp);
+        }
+        let server = match Arc::try_unwrap(self.server) {
+            Ok(l) => l.into_inner(),
+            Err(_) => return Err(Failure::new("harness/template", "server still shared")),
+        };
+        let has = server.storage.is_some();
+        drop(server.storage);
+        drop(server.target);
+        Ok(Template {
+            cfg: self.cfg,
+            server_db: self.server_db,
+            account_id: self.account_id,
+            password: self.password,
+            device_dirs,
+            clocks,
+            server_dir: server.temp,
+            server_has_account: has,
+        })
+    }
+
+    /// Re-create a world from copies of the template's directories.
+    pub async fn from_template(t: &Template) -> Result<SyncWorld, Failure> {
+        let stemp = tempfile::Builder::new().prefix("sv-server-").tempdir().map_err(hf("harness/tempdir", "tempdir"))?;
+        copy_dir(t.server_dir.path(), stemp.path()).map_err(hf("harness/copy", "copy server dir"))?;
+        let target = server_target(stemp.path(), t.server_db).await?;
+        let storage = if t.server_has_account {
+            Some(
+                ServerStorage::new(target.clone(), &t.account_id)
+                    .await
+                    .map_err(hf("harness/server-open", "ServerStorage::new on copied dir"))?,
+            )
+        } else {
+            None
+        };
+        let server: SharedServer = Arc::new(RwLock::new(ServerSide { temp: stemp, target, account_id: t.account_id, storage, last_error: None }));
+        let tap = Tap::default();
+        let key: AccessKey = t.password.clone().into();
+        let mut devices = vec![];
+        for (idx, dir) in t.device_dirs.iter().enumerate() {
+            let temp = tempfile::Builder::new().prefix(&format!("sv-dev{idx}-")).tempdir().map_err(hf("harness/tempdir", "tempdir"))?;
+            copy_dir(dir.path(), temp.path()).map_err(hf("harness/copy", "copy device dir"))?;
+            let target = make_target(temp.path(), t.cfg.db).await?;
+            let mut account = LocalAccount::new_unauthenticated(t.account_id, target).await.map_err(hf("harness/open-clone", "new_unauthenticated on template copy"))?;
+            account.sign_in(&key).await.map_err(hf("harness/sign-in", "sign_in on template copy"))?;
+            let account = Arc::new(Mutex::new(account));
+            let bridge = make_bridge(idx, t.account_id, account.clone(), &server, &tap);
+            devices.push(Device { idx, temp, account, bridge, clock: t.clocks[idx] });
+        }
+        Ok(SyncWorld { cfg: t.cfg.clone(), server_db: t.server_db, account_id: t.account_id, password: t.password.clone(), server, devices, tap })
     }
 }
 
